@@ -308,6 +308,8 @@ def apply_fn(op, a):
         if k == "u":
             return x
         if k == "f":
+            if x.f != x.f or math.isinf(x.f):
+                raise Undefined("f2u inf/nan")
             if x.f < 0 and math.trunc(x.f) != 0:
                 raise Undefined("f2u negative")
             return U(_trunc_to(x.f, 0, MAXU, "f2u"))
